@@ -363,8 +363,17 @@ fn dna_specific(u: &mut Unstructured, stats: &mut Stats, text: &[u8]) {
     let width = 1 + (arg as usize) % 33;
     let pssm = make_pssm::<Dna>(width, seed, arg % 3 == 0);
     lightmotif::pli::verif_hooks::force_backend(force(arg2));
-    let mut striped: StripedSequence<Dna, U32> = enc.to_striped();
+    let mut striped: StripedSequence<Dna, U32> = if arg2 & 0x80 != 0 && len < 400 {
+        // sampled sequences are allocated without any spare rows
+        StripedSequence::sample(StdRng::seed_from_u64(seed), Background::uniform(), len)
+    } else {
+        enc.to_striped()
+    };
     striped.configure(&pssm);
+    if arg2 & 0x40 != 0 {
+        // a clone's buffer ends right after its last row
+        striped = striped.clone();
+    }
     check_aligned("dna striped", striped.matrix());
     match arg2 % 5 {
         0 | 1 => {
